@@ -184,3 +184,20 @@ def read_refresh_handlers(kind):
         return {"refresh_a": on(el, Read)(refresh)}
 
     return factory
+
+
+def write_veto_handlers(kind):
+    """handler factory: a plain Write handler on element A of the target vector that defers the change
+    (event.prevent_default, as the Write event documents for hardware that confirms later) and never confirms it:
+    the device keeps its value and publishes nothing, so every client - the writer included - must keep showing it"""
+    from indi.device.events import Write, on
+
+    def factory(defs):
+        el = defs["g1"].vectors["t"].elements["a"]
+
+        def defer(self, event):
+            event.prevent_default = True
+
+        return {"defer_a": on(el, Write)(defer)}
+
+    return factory
